@@ -37,6 +37,18 @@ theorem reflect_emit_fixpoint : ∀ row ∈ emitted, fixpointOK row = true := by
 theorem ischema_classes_renderable :
     ∀ kv ∈ ischema, (ddlOf (kv.2, 0)).isSome = true := by decide
 
+/-- **primary_key_rendered_exactly_once**: for every combination of the five facts the two
+    cooperating sites of SQLiteDDLCompiler look at (the column is a primary key, the table has
+    sqlite_autoincrement, the key has one column, the type has Integer affinity, the column has
+    no foreign key), a primary-key column is rendered either inline or by the table-level
+    constraint, never by both and never by neither.  Decided against the conjunct lists
+    regenerated from the source (`Gen/SqlitePk.lean`). -/
+theorem primary_key_rendered_exactly_once :
+    ∀ a < 32, atomHolds a 0 = true → (pkInline a != pkTableLevel a) = true := by decide
+
+/-- non-vacuity: both renderings occur -/
+example : pkInline 31 = true ∧ pkTableLevel 31 = false ∧ pkInline 15 = false ∧ pkTableLevel 15 = true := by decide
+
 /-! ## the column-list scanner -/
 
 /-- how `DDLCompiler` writes one column of a constraint: quoted or bare -/
